@@ -44,7 +44,11 @@ EXTERNAL_RAISES = {
     "struct.unpack_from": {"struct.error"}, "struct.calcsize": set(),
     "pefile.PE": {"pefile.PEFormatError"},
     "json.dumps": set(), "json.JSONEncoder.default": {"TypeError"},
-    "functools.partial": set(), "functools.lru_cache": set(), "functools.cache": set(), "contextlib.suppress": set(), "warnings.warn": set(), "collections.Counter": set(),
+    "functools.partial": set(), "functools.lru_cache": set(), "functools.cache": set(),
+    "heapq.merge": set(), "itertools.chain": set(), "itertools.chain.from_iterable": set(), "itertools.islice": {"ValueError"}, "operator.attrgetter": set(),
+    "operator.itemgetter": set(), "itertools.groupby": set(), "itertools.accumulate": set(), "itertools.takewhile": set(), "itertools.dropwhile": set(),
+    "itertools.repeat": set(), "itertools.starmap": set(), "itertools.zip_longest": set(), "itertools.count": set(), "itertools.product": set(),
+    "collections.deque": set(), "collections.defaultdict": set(), "collections.OrderedDict": set(), "contextlib.suppress": set(), "warnings.warn": set(), "collections.Counter": set(),
     "string.printable.encode": set(),
 }
 # methods of bytes / str / list / dict / match / library objects: total unless listed
